@@ -518,8 +518,15 @@ def gen_case(rng, kind):
         ops.append(("arc", rng.choice(names), "X", 1, 1))                                # unknown endpoint
     nr = rng.randint(1, 12)
     when_late = rng.randrange(0, nr) if late_nodes else None
+    # sometimes an existing arc is given new data in the middle of the history: routes stored
+    # before keep the cost they had when they were added
+    when_rearc = rng.randrange(1, nr) if (nr > 1 and arcs and rng.random() < 0.15) else None
     given = []
     for step in range(nr):
+        if when_rearc is not None and step == when_rearc:
+            i, j, t, c = rng.choice(arcs)
+            if i not in late_nodes and j not in late_nodes:
+                ops.append(("arc", names[i], names[j], max(0, t + rng.choice([-1, 0, 1])), c + rng.choice([-2, 1, 3])))
         if when_late is not None and step == when_late:
             for i in late_nodes:
                 ops.append(("node",) + nodes[i])
@@ -768,7 +775,7 @@ def run(ctx):
     kinds = {}
     labels = {}
     outcomes = {"feasible_added": 0, "feasible_duplicate": 0, "rejected": 0, "ValueError": 0, "IndexError": 0,
-                "node_later": 0, "queries": 0, "dup_other_representation": 0}
+                "node_later": 0, "queries": 0, "dup_other_representation": 0, "arc_overwritten_later": 0}
     seen = set()
     for k in range(n_cases):
         kind = KINDS[k % len(KINDS)]
@@ -809,6 +816,9 @@ def run(ctx):
                 first_route = True
             elif op[0] == "node" and first_route and ob[1] == "ok":
                 outcomes["node_later"] += 1
+            elif op[0] == "arc" and first_route and ob[1] == "ok" and ob[2] and op[1] in p.node_names and op[2] in p.node_names \
+                    and (p.node_names.index(op[1]), p.node_names.index(op[2])) in p.arcs:
+                outcomes["arc_overwritten_later"] += 1
             elif op[0] == "query":
                 outcomes["queries"] += 1
             apply(p, op)
